@@ -123,4 +123,5 @@ def check(ctx):
     R.c14_guards(ctx, prog)
     R.c14_closure(ctx, prog)
     R.c14_streams(ctx, prog)
+    R.c14_bounds(ctx, prog)
     R.c14_asserts(ctx)
